@@ -393,3 +393,78 @@ func H_c02_fs() {
 	}
 	verif_witness()
 }
+
+// H_c02_token: the token commands reach the agent as issued (Command.c l.1376 CommandToken:
+// I sub-command; impersonate/remove: I token id; steal: I pid, I handle; privs-list: I 1;
+// privs-get: I 0, S privilege name; list/getuid/revert/clear: nothing), for ids and pids of
+// 1..3 arbitrary digits, handles of 1..4 arbitrary hex digits and a privilege name of two
+// arbitrary printable characters.
+func H_c02_token() {
+	ts, A, _, _ := verifStateS()
+	sub := nondet_choice("token-sub", 9)
+	info := map[string]any{"TaskID": "0000000d"}
+	var want []byte
+	switch sub {
+	case 0, 1:
+		id, idv := verifDigits("token-id", 1+nondet_choice("token-id-len", 3))
+		name, code := "impersonate", uint32(1)
+		if sub == 1 {
+			name, code = "remove", 8
+		}
+		info["SubCommand"], info["Arguments"] = name, id
+		want = verifFsInt(verifFsInt(nil, code), uint32(idv))
+	case 2:
+		pid, pidv := verifDigits("pid", 1+nondet_choice("pid-len", 3))
+		h, hv := verifHexDigits("handle", 1+nondet_choice("handle-len", 4))
+		info["SubCommand"], info["Arguments"] = "steal", pid+";"+h
+		want = verifFsInt(verifFsInt(verifFsInt(nil, 2), uint32(pidv)), uint32(hv))
+	case 3:
+		info["SubCommand"] = "list"
+		want = verifFsInt(nil, 3)
+	case 4:
+		info["SubCommand"] = "privs-list"
+		want = verifFsInt(verifFsInt(nil, 4), 1)
+	case 5:
+		pb := nondet_bytes("privilege", 2)
+		for _, c := range pb {
+			verif_assume(c >= 0x21)
+			verif_assume(c < 0x7f)
+		}
+		info["SubCommand"], info["Arguments"] = "privs-get", string(pb)
+		want = verifFsInt(verifFsInt(nil, 4), 0)
+		// S: length-prefixed bytes with the terminating NUL
+		want = verifFsInt(want, 3)
+		want = append(want, pb[0], pb[1], 0)
+	case 6:
+		info["SubCommand"] = "getuid"
+		want = verifFsInt(nil, 6)
+	case 7:
+		info["SubCommand"] = "revert"
+		want = verifFsInt(nil, 7)
+	case 8:
+		info["SubCommand"] = "clear"
+		want = verifFsInt(nil, 9)
+	}
+	msg := map[string]string{}
+	job, err := A.TaskPrepare(COMMAND_TOKEN, info, &msg, "", ts)
+	verif_assert(err == nil, "a well-formed token command is accepted")
+	if err != nil || job == nil {
+		return
+	}
+	A.AddJobToQueue(*job)
+	reply := BuildPayloadMessage(A.GetQueuedJobs(), A.Encryption.AESKey, A.Encryption.AESIv)
+	task := verifDecodeOneTask(reply, A.Encryption.AESKey, A.Encryption.AESIv)
+	verif_assert(task.OK, "the check-in reply holds exactly one well-formed task")
+	if !task.OK {
+		return
+	}
+	verif_assert(task.Cmd == COMMAND_TOKEN, "the agent sees the operator's command")
+	verif_assert(task.Rid == 0xd, "the request id is the operator's task id")
+	verif_assert(len(task.Body) == len(want), "the task body holds exactly the fields the Demon reads")
+	if len(task.Body) == len(want) {
+		for i := range want {
+			verif_assert(task.Body[i] == want[i], "every field read by the Demon's CommandToken equals the operator's parameter")
+		}
+	}
+	verif_witness()
+}
